@@ -159,7 +159,20 @@ static void run_scn(int scn, long t0, const std::vector<TickIn>& ticks, double u
     if (!tk.ctl) continue;  // cannot be expressed: rejected at compile time (negative compile test)
 #endif
     std::vector<typename MF::StampedReading> rs;
+    std::vector<int> ids;
     for (const auto& r : tk.rs) {
+      // a reading OBJECT listed twice (same id): the very same StampedReading (shared data) is listed again
+      bool repeated = false;
+      for (size_t k = 0; k < ids.size(); ++k) {
+        if (ids[k] == r.id) {
+          typename MF::StampedReading again = rs[k];
+          rs.push_back(again);
+          repeated = true;
+          break;
+        }
+      }
+      ids.push_back(r.id);
+      if (repeated) continue;
       Reading<MAXN> rd;
       rd.key = r.key;
       rd.id = r.id;
